@@ -53,7 +53,11 @@ func computeChange(target *targetInfo) (*configapi.PathValues, error) {
 	}
 	//deletes
 	for _, path := range target.removes {
-		deleteValue, _ := valueutils.NewChangeValue(path, *configapi.NewTypedValueEmpty(), true)
+		deleteValue, err := valueutils.NewChangeValue(path, *configapi.NewTypedValueEmpty(), true)
+		if err != nil {
+			// an invalid path must not put a nil change value into the transaction
+			return &configapi.PathValues{}, err
+		}
 		newChanges[path] = deleteValue
 	}
 
